@@ -198,3 +198,41 @@ def run(repo, units, seed, per_contract=150):
     finally:
         native.build_value = orig_build
     return evals, bad, skipped
+
+
+def search_witness(repo, c: api.Contract, seed, n=400):
+    """After a refutation whose counter-model did not replay (over-abstraction: opaque functions, uninterpreted
+    builtins), look for a concrete failing input by running the real function on generated inputs. Bounded search,
+    used only to FIND an input, never to claim anything when it finds none."""
+    import inspect
+    rng = random.Random(seed)
+    strs, ints = harvest_constants(repo, c)
+    g = Gen(rng, strs, ints)
+    orig_build = native.build_value
+
+    def patched(ty, mv, memo=None):
+        r = _build(ty, mv)
+        return r if r is not None else orig_build(ty, mv, memo)
+
+    native.build_value = patched
+    try:
+        mod, owner, obj = native.resolve_target(c.target)
+        fn = obj.__func__ if isinstance(obj, (staticmethod, classmethod)) else (obj.fget if isinstance(obj, property) else obj)
+        pnames = [p for p in inspect.signature(fn).parameters]
+        for _ in range(n):
+            try:
+                inputs = {k: g.value(c.types[k]) for k in pnames if k in c.types}
+            except CannotGenerate:
+                return None
+            try:
+                r = native.replay(c, inputs)
+            except BaseException:  # noqa
+                continue
+            if r.get("confirmed") and r.get("requires_holds") is not False:
+                r["found_by"] = "native search after refutation"
+                return r
+    except BaseException:  # noqa
+        return None
+    finally:
+        native.build_value = orig_build
+    return None
